@@ -1,7 +1,10 @@
 import RV.Proofs.SyncCorr
 import RV.Proofs.SyncSaba
+import RV.Proofs.SyncSabaPhys
 import RV.Proofs.SyncMerc
 import RV.Proofs.SyncInt
+import RV.Proofs.SyncVar
+import RV.Proofs.SyncEos
 import Mathlib.Tactic.Ring
 /-
   C09 — deferred synchronisation never changes the physics.
@@ -49,6 +52,27 @@ theorem c09_whfast_keep_unsynchronized_bitwise (S : Sem T PJ X V A) (c : Config)
   intro a b
   have h := rel_run S c hk hs σ hσ x x (Rel.refl x)
   exact ⟨h.2.1, h.1, rel_sync_obs S c h⟩
+
+/-- **Interleaving theorem over the full operation alphabet of the model** (`step`, `synchronize`,
+    `read`, `setRecalc` = the user sets `recalculate_coordinates_this_timestep`, `poke x` = the user
+    overwrites particle positions / velocities): keep_unsynchronized = 1, safe_mode = 0, *every*
+    sequence σ, no side condition — the synchronize and read-only calls of σ can be dropped
+    (`Op.isKept` keeps steps, flag settings and particle edits in place) without changing the
+    internal coordinates, the flags, or what a final synchronize shows.  This holds although a
+    particle edit made while unsynchronised is physically meaningless (it is overwritten, with a
+    warning, by the synchronize part1 performs before recalculating): WHFast's part1 always
+    synchronises before `from_inertial`, so what it reads never depends on an earlier output call. -/
+theorem c09_whfast_keep_unsynchronized_bitwise_all_ops (S : Sem T PJ X V A) (c : Config)
+    (hk : c.keep = true) (hs : c.safe = false) (σ : List (Op (X × V))) (x : Flags × St PJ X V A) :
+    let a := run S c σ x
+    let b := run S c (σ.filter Op.isKept) x
+    a.2.pj = b.2.pj ∧ initF a.1 = initF b.1 ∧
+    (apply S c .synchronize a).2.pj = (apply S c .synchronize b).2.pj ∧
+    (apply S c .synchronize a).2.pos = (apply S c .synchronize b).2.pos ∧
+    (apply S c .synchronize a).2.vel = (apply S c .synchronize b).2.vel := by
+  intro a b
+  have h := rel_run_all S c hk hs σ x x (Rel.refl x)
+  exact ⟨h.2.1, h.1, (rel_sync_obs S c h).2⟩
 
 /-- `synchronize ∘ synchronize = synchronize` on flags, internal coordinates, positions and
     velocities — every option combination, every flag state. -/
@@ -207,6 +231,22 @@ theorem c09_saba_keep_unsynchronized_bitwise (S : Sem T PJ X V A) (c : SabaConfi
     rwa [initF_isSync, initF_isSync] at this
   exact ⟨h.1.2.1, h.1.1, srel_sync_obs S c hk h hi⟩
 
+/-- SABA, alphabet extended with particle edits (`poke`): covered are all sequences without
+    `setRecalc`.  Setting `recalculate_coordinates_this_timestep` by hand while SABA is
+    unsynchronised is **not** covered and cannot be: SABA's part1 calls `from_inertial` without
+    synchronising first (integrator_saba.c:240-243), so what it reads *does* depend on whether an
+    output call synchronised the particles in between. -/
+theorem c09_saba_keep_unsynchronized_bitwise_with_edits (S : Sem T PJ X V A) (c : SabaConfig)
+    (hk : c.keep = true) (hs : c.safe = false) (σ : List (Op (X × V)))
+    (hσ : ∀ o ∈ σ, Op.notSetRecalc o = true) (x : Flags × St PJ X V A)
+    (hx : (initF x.1).isSync = false → (initF x.1).recalc = false) :
+    let a := sabaRun S c σ x
+    let b := sabaRun S c (σ.filter Op.isKept) x
+    a.2.pj = b.2.pj ∧ initF a.1 = initF b.1 := by
+  intro a b
+  have h := srel_run_all S c hk hs σ hσ x x ⟨Rel.refl x, hx⟩
+  exact ⟨h.1.2.1, h.1.1⟩
+
 /-- SABA: with `keep_unsynchronized`, `synchronize` leaves `p_jh` and every flag unchanged -/
 theorem c09_saba_keep_sync_preserves_internal (S : Sem T PJ X V A) (c : SabaConfig)
     (hk : c.keep = true) (x : Flags × St PJ X V A) :
@@ -220,6 +260,81 @@ theorem c09_saba_synchronize_twice_no_primitives (c : SabaConfig) (hk : c.keep =
     (sabaSyncOps c (sabaSyncOps c f).2).1 = [] := by
   unfold sabaSyncOps
   cases h : f.isSync <;> simp [hk, h]
+
+/-- **SABA: unsafe mode + synchronize = safe mode**, all 18 types (`SABA1…4`, `SABA(10,4)`,
+    `(8,6,4)`, `(10,6,4)`, `SABAH…`, and the corrector families `SABACM1…4`, `SABACL1…4`), every
+    sequence of steps, intermediate synchronisations and read-only calls from a new simulation:
+    positions, velocities and internal coordinates after a final `synchronize` are those of the
+    safe-mode run doing the same steps.  Hypotheses (`SabaLaws`): Kepler / centre-of-mass drifts
+    are commuting flows, `from_inertial ∘ to_inertial = id`, `c₀dt + c₀dt = 2c₀dt`, and — for the
+    corrector types only — the **merge law of the corrector step**
+    `corr(cc) ; corr(cc) = corr(2cc)` on the internal coordinates, stated explicitly as
+    `SabaLaws.corr_merge`; `c09_saba_modified_kick_merge` derives it for the modified-kick family
+    from laws of its factors, for the lazy family it remains a hypothesis. -/
+theorem c09_saba_unsafe_sync_equals_safe [AddCommGroup T] (S : Sem T PJ X V A) (c : SabaConfig)
+    (L : SabaLaws S c) (σ : List (Op (X × V))) (hσ : ∀ o ∈ σ, o.benign = true)
+    (x0 : Flags × St PJ X V A) (h0 : x0.1.isSync = true) (hr : (initF x0.1).recalc = true) :
+    let u := sabaApply S (c.mode false false) .synchronize (sabaRun S (c.mode false false) σ x0)
+    let v := sabaRun S (c.mode true false) (σ.filter Op.isStep) x0
+    u.2.pj = v.2.pj ∧ u.2.pos = v.2.pos ∧ u.2.vel = v.2.vel := by
+  intro u v
+  have hf : initF x0.1 = ⟨true, true, true⟩ := by
+    rw [flags_eta (initF x0.1), initF_isSync, h0, hr, initF_allocated]
+  exact sinv_final S c (sinv_run L σ hσ x0 x0 (SInv.fresh _ _ rfl hf hf))
+
+/-- the merge law of the corrector step for the modified-kick family (`SABACM1…4`), from laws of
+    its factors: the kick is additive at fixed accelerations, kick and jerk do not move positions,
+    the jerk buffer is overwritten independently of the kick, the folded acceleration reads the
+    jerk buffer only, `cc·dt + cc·dt = 2cc·dt` -/
+theorem c09_saba_modified_kick_merge [AddCommGroup T] (S : Sem T PJ X V A) (t : Nat)
+    (ht : t / 0x100 = 1) (L : ModKickLaws S (t % 0x100)) (s : St PJ X V A) :
+    (exec S (sabaCorrOps t 1 ++ sabaCorrOps t 1) s).pj = (exec S (sabaCorrOps t 2) s).pj :=
+  saba_modified_kick_merge t ht L s
+
+/-! ### WHFast with variational particles (`N_var > 0`) -/
+
+section variational
+open RV.Sync.Var
+variable {VX VV VA : Type}
+
+/-- **keep_unsynchronized bitwise clause with first-order variational particles** (the flag machine
+    `vStepOps` / `vSyncOps` of the fourth replay family: Jacobi coordinates, default kernel, no
+    correctors, no MEGNO).  Footprint components are finer here (`VSem`): positions, velocities and
+    accelerations of the variational particles are separate from those of the real particles,
+    because `to_inertial` overwrites only the latter.  For every sequence of steps,
+    synchronisations and read-only calls, `p_jh` (all N entries, variational ones included) and the
+    flags are those of the run doing only the steps, and a final synchronize shows the same real
+    *and variational* positions and velocities.  No hypothesis on the primitives. -/
+theorem c09_whfast_variational_keep_unsynchronized_bitwise (S : VSem T PJ X V A VX VV VA) (c : Config)
+    (hk : c.keep = true) (hs : c.safe = false) (σ : List (Op Unit)) (hσ : ∀ o ∈ σ, o.benign = true)
+    (x : Flags × VSt PJ X V A VX VV VA) :
+    let a := vRun S c σ x
+    let b := vRun S c (σ.filter Op.isStep) x
+    a.2.pj = b.2.pj ∧ initF a.1 = initF b.1 ∧
+    (vApply S c .synchronize a).2.pj = (vApply S c .synchronize b).2.pj ∧
+    (vApply S c .synchronize a).2.pos = (vApply S c .synchronize b).2.pos ∧
+    (vApply S c .synchronize a).2.vel = (vApply S c .synchronize b).2.vel ∧
+    (vApply S c .synchronize a).2.vpos = (vApply S c .synchronize b).2.vpos ∧
+    (vApply S c .synchronize a).2.vvel = (vApply S c .synchronize b).2.vvel := by
+  intro a b
+  have h := vrel_run S c hk hs σ hσ x x (VRel.refl x)
+  exact ⟨h.2.1, h.1, vrel_sync_obs S c hk h⟩
+
+/-- with variational particles and keep_unsynchronized, `synchronize` returns all N entries of
+    `p_jh` unchanged (the cache covers the variational entries too — seeded change C09-d breaks
+    exactly this) and synchronising twice shows what synchronising once shows -/
+theorem c09_whfast_variational_keep_sync_preserves_internal (S : VSem T PJ X V A VX VV VA) (c : Config)
+    (hk : c.keep = true) (x : Flags × VSt PJ X V A VX VV VA) :
+    (vApply S c .synchronize x).2.pj = x.2.pj ∧ (vApply S c .synchronize x).1 = initF x.1 ∧
+    (let y := vApply S c .synchronize x
+     let z := vApply S c .synchronize y
+     z.2.pj = y.2.pj ∧ z.2.pos = y.2.pos ∧ z.2.vel = y.2.vel ∧ z.2.vpos = y.2.vpos ∧ z.2.vvel = y.2.vvel) := by
+  obtain ⟨e1, e2, _⟩ := vsync_keep S c hk x.1 x.2
+  refine ⟨e2, e1, ?_⟩
+  have h := vrel_sync_obs S c hk (vrel_sync S c hk x)
+  exact ⟨h.1.symm, h.2.1.symm, h.2.2.1.symm, h.2.2.2.1.symm, h.2.2.2.2.symm⟩
+
+end variational
 
 /-! ### MERCURIUS (kick first) and EOS (outer scheme) -/
 
@@ -255,6 +370,22 @@ theorem c09_eos_unsafe_sync_equals_safe_partial {E : Type} (S : ESem E) (L : ELa
   rcases h with ⟨h1, h2, h3⟩ | ⟨h1, h2, h3⟩
   · simp [eApply, eSyncOps, h1, eExec, h3]
   · simp [eApply, eSyncOps, h1, eExec, eDenote, h3]
+
+/-- **EOS at full resolution**: the operator list of RV.Model.SyncEos — every shell-1 drift,
+    shell-1 interaction and shell-0 interaction with its coefficient, for all 9 × 9 `phi0`/`phi1`
+    pairs and every `n`; this is what rv/c09.py replays bit for bit against
+    `reb_integrator_eos_part2` / `_synchronize` — run under *any* interpretation of the three
+    elementary operators, is the abstract outer schedule run with the operators `semOf` builds from
+    those lists.  Hence `c09_eos_unsafe_sync_equals_safe_partial` is a statement about the replayed
+    schedule: unsafe + synchronize = safe whenever the concrete `driftShell0` lists satisfy
+    `drift a₀ ∘ drift a₀ = drift 2a₀` and the concrete pre/post-processor lists cancel. -/
+theorem c09_eos_concrete_schedule_refines_abstract {K E : Type} [Scalar K] (den : Eos.EOp K → E → E)
+    (Tb : Eos.Tab K) (phi0 phi1 n : Nat) (dt : K) (safe isSync : Bool) (s : E) :
+    Eos.execE den (Eos.part2 Tb phi0 phi1 n safe isSync dt).1 s =
+      eExec (Eos.semOf den Tb phi0 phi1 n dt) (eStepOps safe isSync).1 s ∧
+    Eos.execE den (Eos.sync Tb phi0 phi1 n isSync dt).1 s =
+      eExec (Eos.semOf den Tb phi0 phi1 n dt) (eSyncOps isSync).1 s :=
+  ⟨Eos.exec_concr den Tb phi0 phi1 n dt _ s, Eos.exec_concr den Tb phi0 phi1 n dt _ s⟩
 
 /-- EOS: `synchronize` twice = once -/
 theorem c09_eos_synchronize_twice_no_primitives (b : Bool) : (eSyncOps (eSyncOps b).2).1 = [] := by
@@ -348,7 +479,7 @@ theorem c09_integrate_reverse_unsynchronized_flips_dt (c : Config) (n k : Nat) (
 def demoSem : Sem Int (Int × Int × Int) Int Int Int where
   ev := fun c => match c with
     | .frac n d => n * (8 / (d : Int)) | .corrA i m => m * (7 * i) | .corrB n s => s * n
-    | .c2b s => s | _ => 0
+    | .c2b s => s | .sabaC r i m => m * (r + i + 3) | .sabaCC r m => m * (r + 1) | _ => 0
   fromI := fun x v p => (x, v, p.2.2)
   toIpos := fun p => p.1
   toIvel := fun p => p.2.1
@@ -374,6 +505,21 @@ example : Laws demoSem where
   from_to := by intro p; rfl
   ev_half := by decide
   ev_comp := by decide
+
+example : SabaLaws demoSem ⟨0x101, false, false, false⟩ where
+  kepler_add := by intro a b p; simp only [demoSem]; ext <;> simp; ring
+  com_add := by intro a b p; simp only [demoSem]; ext <;> simp; ring
+  kepler_com := by intro a b p; rfl
+  from_to := by intro p; rfl
+  ev_double := by decide
+  corr_merge := fun _ s => saba_modified_kick_merge 0x101 rfl
+    { inter_add := by intro a b acc p; simp only [demoSem]; ext <;> simp; ring
+      posJ_inter := by intro b acc p; rfl
+      posJ_jerk := by intro x a p; rfl
+      jerk_inter := by intro x a t b p; rfl
+      jerk_idem := by intro x a p; rfl
+      fold_inter := by intro t b p; rfl
+      ev_cc_double := by decide } s
 
 example : C2Laws demoSem where
   ev_half_neg := by decide
